@@ -1303,4 +1303,5 @@ func Run(c *hx.Ctx) {
 	dyns(c, tmp, c.N(240, 3000))
 	dynUpds(c, c.N(150, 1500))
 	orders(c, tmp, c.N(300, 4000))
+	laddrs(c, tmp, c.N(160, 2500))
 }
